@@ -111,8 +111,13 @@ def metamorphic(chk, results):
         start = len(reqs)
         for arr in arrays:
             reqs.append(dict(go_req(c), doc=enc_val({"m": arr})))
-        mixsql = c["sql"].replace(" FROM m", " FROM `mix=>m`")
-        reqs.append(dict(go_req(c), sql=mixsql))
+        # the flattening form; every other time over the same data under a camelCase key (key names are data, not syntax)
+        if (len(reqs) // 2) % 2 == 0:
+            mixsql = c["sql"].replace(" FROM m", " FROM `mix=>m`")
+            reqs.append(dict(go_req(c), sql=mixsql))
+        else:
+            mixsql = c["sql"].replace(" FROM m", " FROM `mix=>gridRows.Inner`")
+            reqs.append(dict(go_req(c), sql=mixsql, doc=enc_val({"gridRows": {"Inner": c["doc"]["m"]}, "gridrows": {"inner": []}})))
         meta.append((c, g, start, len(arrays)))
     if not reqs:
         return
